@@ -188,6 +188,113 @@ def h_step(deleting: bool, has_fin: bool, match: bool, kind: int, outcome: int, 
     return vkopf.verdict(ok)
 
 
+def h_two_daemons(first_exits: bool, second_exits: bool, has_fin: bool, events: int, with_timer: bool) -> bool:
+    """
+    pre: 1 <= events <= 3
+    post: _ == True
+    """
+    vkopf.begin_path()
+    # Several daemons/timers per object: one that exits on its own must not make the framework forget the others.
+    w = World(base_body(finalizers=['a/fin'] + ([FIN] if has_fin else [])))
+    w.settings.background.instant_exit_timeout = None
+    w.settings.background.instant_exit_zero_time_cycles = 3
+    alive = {'d1': False, 'd2': False}
+
+    def make(name, exits):
+        async def fn(stopped, **kw):
+            alive[name] = True
+            try:
+                if not exits:
+                    await stopped.wait()
+            finally:
+                alive[name] = False
+        fn.__name__ = name
+        return fn
+    kopf.daemon(PLURAL, id='d1', registry=w.registry)(make('d1', first_exits))
+    kopf.daemon(PLURAL, id='d2', registry=w.registry)(make('d2', second_exits))
+    if with_timer:
+        @kopf.timer(PLURAL, id='t3', registry=w.registry, interval=100)
+        async def t3(**kw):
+            pass
+
+    async def main():
+        await w.process('ADDED')
+        for _ in range(events):
+            await asyncio.sleep(1)
+            if w.server.obj is not None:
+                await w.process('MODIFIED')
+        fins = list(w.server.obj['metadata'].get('finalizers', [])) if w.server.obj else None
+        state = dict(alive)
+        await cancel_all_others()
+        return fins, state
+    fins, state = w.run(main())
+    ok = fins is not None and [f for f in fins if f != FIN] == ['a/fin'] and fins.count(FIN) <= 1
+    still_running = state['d1'] or state['d2'] or with_timer
+    if still_running:
+        vkopf.witness('some_still_running')
+        if fins is None or FIN not in fins:
+            ok = False                  # held as long as ANY matching daemon/timer has not exited
+    else:
+        if fins is not None and FIN in fins:
+            ok = False                  # ... and released once all of them exited on their own
+        vkopf.witness('all_exited')
+    return vkopf.verdict(ok)
+
+
+def h_daemon_release(age: int, backoff: int, timeout: int, has_backoff: bool) -> bool:
+    """
+    pre: age >= 0 and backoff >= 0 and timeout >= 0
+    post: _ == True
+    """
+    vkopf.begin_path()
+    w = World(base_body(finalizers=[FIN]), tmode='symbolic')
+    w.settings.background.instant_exit_timeout = None
+    w.settings.background.instant_exit_zero_time_cycles = 3
+    state = {}
+
+    @kopf.daemon(PLURAL, id='dm', registry=w.registry, cancellation_backoff=backoff if has_backoff else None,
+                 cancellation_timeout=timeout)
+    async def dm(stopped, **kw):
+        while not state['over'].is_set():           # never exits on its own: ignores the flag and cancellations
+            try:
+                await state['over'].wait()
+            except asyncio.CancelledError:
+                pass
+
+    async def main():
+        state['over'] = asyncio.Event()
+        await w.process('ADDED')
+        await asyncio.sleep(0)
+        w.server.write(lambda o: o['metadata'].update(deletionTimestamp='2020-01-01T00:00:00Z'))
+        t_stop = w.loop.time()
+        first = asyncio.create_task(w.process('MODIFIED', stream_pressure=state['over']))   # asks the daemon to stop, then sleeps
+        await asyncio.sleep(age)
+        fins_before = list((w.server.obj or {'metadata': {}})['metadata'].get('finalizers', []))
+        gone_before = w.server.obj is None
+        # an unrelated event for the object arrives `age` seconds after the stop request
+        released_at = None
+        if w.server.obj is not None:
+            await w.process('MODIFIED')
+        gone = w.server.obj is None or FIN not in w.server.obj['metadata'].get('finalizers', [])
+        state['over'].set()
+        first.cancel()
+        await cancel_all_others()
+        return gone_before or FIN not in fins_before, gone
+    released_before, released_now = w.run(main(), max_steps=8000)
+    b = backoff if has_backoff else 0
+    ok = True
+    # never released while the daemon has neither exited nor been abandoned after its timeouts
+    if age < b + timeout and (released_now or released_before):
+        ok = False
+    if age >= b + timeout:
+        vkopf.witness('abandoned_released')
+        if not released_now:
+            ok = False           # ... and released once it is abandoned
+    else:
+        vkopf.witness('still_held')
+    return vkopf.verdict(ok)
+
+
 # ---------------------------------------------------------------------------------------- H3 history
 def run_history(steps, conflict_at, fail_first, ties=()):
     """steps: list over {0: delete request, 1: label off, 2: label on, 3: noop event, 4: restart}."""
@@ -293,6 +400,8 @@ def h_history(s0: int, s1: int, s2: int, conflict_at: int, fail_first: bool) -> 
         handler_done = w.calls.count('delete') >= (2 if fail_first else 1)
         if deleting and match and not handler_done and FIN not in fins:
             ok = False
+        if deleting and match and FIN in fins and w.calls.count('delete') == 0:
+            ok = False            # "always released eventually": the pending deletion handler does get invoked (bounded)
         if deleting and (handler_done or not match) and FIN in fins:
             ok = False            # eventually released (within the bounded settle cycles)
         if not deleting and (FIN in fins) != match:
@@ -311,6 +420,8 @@ def obligations():
         obs.append(Ob('h_step', {'pin': {'deleting': deleting, 'kind': kind, 'with_daemon': wd}}, tiers=('quick',), timeout=900, path_timeout=200))
     obs.append(Ob('h_step', {}, tiers=('quick', 'thorough'), timeout=600, path_timeout=200, twins=['released', 'held', 'blocked'], main=False))
     obs += split(Ob('h_step', {}, tiers=('thorough',), timeout=1500, path_timeout=200), deleting=B, kind=[0, 1, 2], with_daemon=B)
+    obs.append(Ob('h_daemon_release', {}, timeout=900, path_timeout=200, twins=['abandoned_released', 'still_held']))
+    obs.append(Ob('h_two_daemons', {}, timeout=900, path_timeout=200, twins=['some_still_running', 'all_exited']))
     obs += split(Ob('h_history', {'n': 1}, timeout=900, path_timeout=300, twins=['conflict']), s0=[0, 1, 3])
     obs.append(Ob('h_history', {'n': 2, 'pin': {'s0': 2, 's1': 0}}, tiers=('quick',), timeout=900, path_timeout=300))
     obs += split(Ob('h_history', {'n': 2}, timeout=3000, path_timeout=300, tiers=('thorough',), twins=['conflict', 'released']),
